@@ -25,6 +25,9 @@ pub struct NodeDecl {
     /// at_sim_end of this module reports an error (all other modules are torn down all the same)
     #[serde(default)]
     pub end_err: bool,
+    /// the module shuts itself down (for good) when it handles its ping; it is still torn down exactly once
+    #[serde(default)]
+    pub shutdown_on_ping: bool,
 }
 
 #[derive(Debug, Clone, Serialize, Deserialize, PartialEq)]
@@ -66,6 +69,9 @@ struct Node {
     children: Vec<(String, String)>,
     ping_ns: Option<u64>,
     end_err: bool,
+    shutdown_on_ping: bool,
+    /// paths of modules that shut themselves down during the run (a lookup may then report them as inactive)
+    may_be_down: Vec<String>,
 }
 
 impl Node {
@@ -78,14 +84,17 @@ impl Node {
         if cur.name() != self.path.rsplit('.').next().unwrap_or("") {
             bad(format!("current().name() = {} inside {}", cur.name(), self.path));
         }
-        match (&self.parent_path, cur.parent()) {
+        let inactive = |e: &dyn std::fmt::Debug, path: &str| format!("{e:?}").contains("CurrentlyInactive") && self.may_be_down.iter().any(|d| d == path);
+        match (&self.parent_path, cur.parent().as_ref()) {
             (Some(p), Ok(m)) if m.path().as_str() == p => {}
             (None, Err(_)) => {}
+            (Some(p), Err(e)) if inactive(e, p.as_str()) => {}
             (want, got) => bad(format!("parent() of {} = {:?}, declared {want:?}", self.path, got.map(|m| m.path().to_string()).map_err(|e| format!("{e:?}")))),
         }
         for (name, path) in &self.children {
             match cur.child(name) {
                 Ok(m) if m.path().as_str() == path => {}
+                Err(e) if inactive(&e, path) => {}
                 other => bad(format!("child({name}) of {} = {:?}, declared {path}", self.path, other.map(|m| m.path().to_string()).map_err(|e| format!("{e:?}")))),
             }
         }
@@ -113,6 +122,9 @@ impl Module for Node {
     fn handle_message(&mut self, _: Message) {
         LOG.with(|l| l.borrow_mut().push(Ev::Msg(self.idx)));
         self.lookups();
+        if self.shutdown_on_ping {
+            current().shutdown();
+        }
     }
 
     fn at_sim_end(&mut self) -> Result<(), RuntimeError> {
@@ -150,6 +162,8 @@ fn make_node(case: &Case, i: usize) -> Node {
         children: (0..case.nodes.len()).filter(|c| case.nodes[*c].parent == Some(i)).map(|c| (case.nodes[c].name.clone(), case.path(c))).collect(),
         ping_ns: d.ping_ns,
         end_err: d.end_err,
+        shutdown_on_ping: d.shutdown_on_ping,
+        may_be_down: (0..case.nodes.len()).filter(|c| case.nodes[*c].shutdown_on_ping && case.nodes[*c].ping_ns.is_some()).map(|c| case.path(c)).collect(),
     }
 }
 
@@ -438,6 +452,7 @@ pub fn gen_tree(rng: &mut Rng, n: usize) -> Vec<NodeDecl> {
             via_block: rng.chance(1, 5),
             ping_ns: if rng.chance(1, 2) { Some(1 + rng.below(1_000_000)) } else { None },
             end_err: rng.chance(1, 12),
+            shutdown_on_ping: rng.chance(1, 10),
         });
     }
     nodes
